@@ -207,8 +207,14 @@ func GenPlan(profile string, seed uint64, thorough bool) *Plan {
 	if bigShare := map[bool]int{false: 24, true: 10}[thorough]; p.Wide == "" && profile != "C14" && profile != "C10" && r.Intn(bigShare) == 0 {
 		p.Wide = "big"
 		k := 1 + r.Intn(len(p.Types)-1)
+		for i := range p.Types { // one component of 64 bytes or more, a plain one if there is any
+			if kk := (k + i) % len(p.Types); p.Types[kk].Kind == "bytes" {
+				k = kk
+				break
+			}
+		}
 		if p.Types[k].Kind == "bytes" || p.Types[k].Kind == "rel" {
-			p.Types[k].Size = []int{100, 200, 600}[r.Intn(3)]
+			p.Types[k].Size = []int{64, 100, 200, 600}[r.Intn(4)]
 		}
 	}
 	if p.Wide == "" && profile != "C14" && r.Intn(20) == 0 {
@@ -262,6 +268,21 @@ func GenPlan(profile string, seed uint64, thorough bool) *Plan {
 				p.Steps += 350
 				p.FullEvery = 8
 				p.Weights["reset"] = 0 // C15 steers its resets once a node is beyond four pages of tables
+			} else if (profile == "C13" || thorough) && r.Intn(5) == 0 {
+				// beyond 1024 (a page of pages) tables matching one filter: thousands of entities, each its own target
+				p.EntityCap = 2600 + r.Intn(500)
+				p.Steps = 4200 + r.Intn(600)
+				p.FullEvery = 150
+				p.TargetsOnly = false
+				for k := range p.Weights {
+					if p.Weights[k] > 2 {
+						p.Weights[k] = 2
+					}
+				}
+				p.Weights["new"], p.Weights["setrel"], p.Weights["newbatch"], p.Weights["batch"] = 45, 45, 4, 3
+				p.Weights["qopen"], p.Weights["qnext"], p.Weights["qclose"] = 1, 3, 1
+				p.Weights["reset"], p.Weights["lockmax"], p.Weights["lockenum"], p.Weights["sweep"], p.Weights["dump"] = 0, 0, 0, 0, 0
+				p.MaxOpen = 1
 			}
 		case "nodes":
 			p.Weights["xchg"] = 40
@@ -285,6 +306,15 @@ func GenPlan(profile string, seed uint64, thorough bool) *Plan {
 			if r.Intn(map[bool]int{false: 6, true: 5}[thorough]) == 0 { // more than 4096 rows in one table
 				p.EntityCap = 5000 + r.Intn(4000)
 				p.FullEvery = 12
+				p.Weights["reset"] = 2 // huge tables are emptied as a whole and filled again
+				p.Weights["batch"] += 6
+				if r.Intn(3) == 0 { // more than 16384 rows in one table
+					p.EntityCap = 17000 + r.Intn(5000)
+					p.FullEvery = 25
+					p.Steps = 80 + r.Intn(60)
+					p.Weights["newbatch"], p.Weights["reset"], p.Weights["new"] = 30, 6, 12
+					p.CapInc = []int{128, 128, 256, 64}[r.Intn(4)]
+				}
 			}
 		}
 	}
